@@ -148,13 +148,13 @@ def _const_eq(a, b):
 
 def first_diff(a, b, path=()):
     """Structural comparison ignoring positions.  a = expected (normalised CPython), b = Scenic output.
-    Returns None or (path_of_expected_nodes, description)."""
+    Returns None or (path_of_expected_nodes, description, (expected_value, scenic_value))."""
     stack = [(a, b, path, "")]
     while stack:
         x, y, p, where = stack.pop()
         if isinstance(x, ast.AST):
             if type(x) is not type(y):
-                return (p + (x,), f"{where}: expected {type(x).__name__}, Scenic gave {type(y).__name__}")
+                return (p + (x,), f"{where}: expected {type(x).__name__}, Scenic gave {type(y).__name__}", (x, y))
             p2 = p + (x,)
             items = []
             for f in x._fields:
@@ -164,7 +164,7 @@ def first_diff(a, b, path=()):
             stack.extend(reversed(items))
         elif isinstance(x, list):
             if not isinstance(y, list):
-                return (p, f"{where}: expected a list, Scenic gave {type(y).__name__}")
+                return (p, f"{where}: expected a list, Scenic gave {type(y).__name__}", (x, y))
             items = []
             for i, (ex, ey) in enumerate(zip(x, y)):
                 items.append((ex, ey, p, f"{where}[{i}]"))
@@ -174,14 +174,14 @@ def first_diff(a, b, path=()):
                 for ex, ey, pp, ww in items:
                     r = first_diff(ex, ey, pp)
                     if r:
-                        return (r[0], ww + " " + r[1])
+                        return (r[0], ww + " " + r[1], r[2])
                 extra = x[len(y)] if len(x) > len(y) else None
                 pp = p + ((extra,) if isinstance(extra, ast.AST) else ())
-                return (pp, f"{where}: expected {len(x)} elements, Scenic gave {len(y)}")
+                return (pp, f"{where}: expected {len(x)} elements, Scenic gave {len(y)}", (x, y))
             stack.extend(reversed(items))
         else:
             if isinstance(y, (ast.AST, list)) or not _const_eq(x, y):
-                return (p, f"{where}: expected {x!r:.80}, Scenic gave {_short(y)}")
+                return (p, f"{where}: expected {x!r:.80}, Scenic gave {_short(y)}", (x, y))
     return None
 
 
